@@ -921,9 +921,18 @@ def run_queue_on(case, cls, flags, backend, queued=True):
             world.model_ids[id(mod)] = k
         c2 = dict(case)
         c2['init'] = case['models'][0][1]
-        machine, _ = flat.build_machine(c2, world, cls=cls, models=models,
-                                        extra_kwargs=dict(queued=(queued_arg(case, flags, 1) if queued else False),
-                                                          **class_kwargs(flags, backend)))
+        if case.get('self_model') and len(models) == 1:
+            # (coordinator's C05 stream) the machine is its own model - the library's default model='self'
+            machine, _ = flat.build_machine(c2, world, cls=cls,
+                                            extra_kwargs=dict(queued=(queued_arg(case, flags, 1) if queued else False),
+                                                              **class_kwargs(flags, backend)))
+            models = [machine]
+            world.model_ids[id(machine)] = case['models'][0][0]
+        else:
+            c2.pop('self_model', None)
+            machine, _ = flat.build_machine(c2, world, cls=cls, models=models,
+                                            extra_kwargs=dict(queued=(queued_arg(case, flags, 1) if queued else False),
+                                                              **class_kwargs(flags, backend)))
         for (k, s0), mod in zip(case['models'], models):
             machine.set_state('s%d' % s0, mod)
         st = dict(next_id=0, payload_id={}, act_k={}, nested=[], stale=False)
